@@ -291,3 +291,112 @@ ApiModel buildApiModel(uint64_t seed, int variant, const ApiOpts* optsIn) {
 }
 
 } // namespace vf
+
+namespace vf {
+std::string applyRandomEdits(NifFile& nif, Rng& rng, int n) {
+	std::string log;
+	auto& hdr = nif.GetHeader();
+	for (int k = 0; k < n; k++) {
+		auto shapes = nif.GetShapes();
+		int op = (int)rng.below(12);
+		switch (op) {
+			case 0:
+				if (!shapes.empty()) {
+					auto s = shapes[rng.below((uint32_t)shapes.size())];
+					std::string nn = "renamed" + std::to_string(rng.below(1000));
+					log += "rename(" + s->name.get() + "->" + nn + ");";
+					NifFile::RenameShape(s, nn);
+				}
+				break;
+			case 1:
+				if (shapes.size() > 1) {
+					auto s = shapes[rng.below((uint32_t)shapes.size())];
+					log += "deleteShape(" + s->name.get() + ");";
+					nif.DeleteShape(s);
+				}
+				break;
+			case 2: {
+				std::string nn = "Node" + std::to_string(rng.below(1000));
+				log += "addNode(" + nn + ");";
+				nif.AddNode(nn, MatTransform());
+				break;
+			}
+			case 3:
+				if (auto root = nif.GetRootNode()) {
+					auto sed = std::make_unique<NiStringExtraData>();
+					sed->name.get() = "extra" + std::to_string(rng.below(50));
+					sed->stringData.get() = rng.coin() ? "some new string" : "UPB";
+					log += "assignExtraData(" + sed->name.get() + ");";
+					NiAVObject* target = root;
+					if (!shapes.empty() && rng.coin()) target = shapes[rng.below((uint32_t)shapes.size())];
+					nif.AssignExtraData(target, std::move(sed));
+				}
+				break;
+			case 4:
+				if (!shapes.empty()) {
+					auto s = shapes[rng.below((uint32_t)shapes.size())];
+					uint16_t nv = s->GetNumVertices();
+					if (nv > 3) {
+						std::vector<uint16_t> del;
+						for (uint16_t i = 0; i < nv; i++)
+							if (rng.coin(5)) del.push_back(i);
+						if (!del.empty() && del.size() < nv) {
+							log += fmt("deleteVerts(%s,%zu of %u);", s->name.get().c_str(), del.size(), nv);
+							nif.DeleteVertsForShape(s, del);
+						}
+					}
+				}
+				break;
+			case 5:
+				if (!shapes.empty()) {
+					auto s = shapes[rng.below((uint32_t)shapes.size())];
+					std::string tex = rng.coin() ? "textures\\new\\t" + std::to_string(rng.below(100)) + ".dds" : "";
+					uint32_t slot = rng.below(3);
+					log += fmt("setTexture(%s,%u);", s->name.get().c_str(), slot);
+					nif.SetTextureSlot(s, tex, slot);
+				}
+				break;
+			case 6:
+				if (hdr.GetNumBlocks() > 2) {
+					uint32_t id = 1 + rng.below(hdr.GetNumBlocks() - 1);
+					// a shape caches a raw pointer to its geometry data block; deleting that block behind the shape's back is
+					// outside what these workloads are about (see the C06 finding), shapes are deleted through DeleteShape
+					if (hdr.GetBlock<NiGeometryData>(id)) break;
+					log += fmt("deleteBlock(%u:%s);", id, hdr.GetBlockTypeStringById(id).c_str());
+					hdr.DeleteBlock(id);
+				}
+				break;
+			case 7:
+				if (!shapes.empty() && shapes.size() < 6) {
+					auto s = shapes[rng.below((uint32_t)shapes.size())];
+					std::string nn = s->name.get() + "_clone" + std::to_string(rng.below(100));
+					log += "cloneShape(" + s->name.get() + ");";
+					nif.CloneShape(s, nn);
+				}
+				break;
+			case 8:
+				if (!shapes.empty()) {
+					auto s = shapes[rng.below((uint32_t)shapes.size())];
+					std::vector<Vector3> v;
+					if (nif.GetVertsForShape(s, v) && !v.empty()) {
+						for (auto& p : v) p.x += 0.5f;
+						log += "moveVerts(" + s->name.get() + ");";
+						nif.SetVertsForShape(s, v);
+					}
+				}
+				break;
+			case 9: log += "deleteUnreferenced;"; nif.DeleteUnreferencedBlocks(); break;
+			case 10: log += "prettySort;"; nif.PrettySortBlocks(); break;
+			case 11:
+				if (!shapes.empty()) {
+					auto s = shapes[rng.below((uint32_t)shapes.size())];
+					auto ap = std::make_unique<NiAlphaProperty>();
+					log += "assignAlpha(" + s->name.get() + ");";
+					nif.AssignAlphaProperty(s, std::move(ap));
+				}
+				break;
+		}
+	}
+	return log;
+}
+} // namespace vf
